@@ -680,12 +680,16 @@ def fam_c17(tier, seed):
             l = [fx_line("B", 0, "GBP", "GBP"), fx_line(k, 1, cur, "GBP"), fx_line("S", 30, "GBP", "GBP")]
             sks.append(mk(i, "e", l, base=BASES[2], wit=WIT, mode="PF")); i += 1
         sks.append(mk(i, "e", [fx_line("B", 0, cur, "GBP"), fx_line("S", 30, "GBP", cur)], base=BASES[2], wit=WIT, mode="PF")); i += 1
+    # quantities with many decimals (fractional shares): every front-end must show them exactly
+    for s0 in list(sks):
+        if s0["id"][0] == "t" and s0["base"] == BASES[0] and len(s0["lines"]) <= 3:
+            sks.append(dict(s0, id=f"f{i}", opts=dict(s0["opts"], fracq=1))); i += 1
     # the MCP tools (calculate_report all years and per year, explain_matching per disposal) on the same ledgers, fed as a
     # JSON array and as DSL text; handlers compiled from the current source of crates/cgt-mcp (skipped if that fails)
     from . import symx as _symx
     if _symx.MCP_OK:
         for s0 in list(sks):
-            if s0["id"][0] in "te" and (tier == "thorough" or len(s0["lines"]) <= 3):
+            if s0["id"][0] in "tef" and (tier == "thorough" or len(s0["lines"]) <= 3):
                 for inp in ("json", "dsl"):
                     o = dict(s0["opts"], variant="mcp", input=inp)
                     sks.append(dict(s0, id=f"m{i}", opts=o)); i += 1
@@ -698,7 +702,7 @@ SPECS.update({
                     "one transaction of each of the 7 kinds x 10 tickers (incl. keyword-like BUY, SELL, TOTAL, RATIO, FEES, TAX1, 0A, GBP) x 4x4 currency pairs; every ISO-4217 code of iso_currency on each amount slot of the 5 money-carrying kinds; lists of 2..3 transactions (B/S on {0,30}, plus one event line) whose three renderings are also run through calculate; every quantity, amount and ratio a real-valued symbol, zero/non-zero optional clause chosen by the solver",
                     "as quick plus two-security lists")),
                 assumptions=["symbolic decimals travel through text as reserved all-digit literals that the shim's Display/FromStr map to and from their terms (precision-aware)", "numeric inputs: quantity > 0, amounts >= 0, ratio > 0"],
-                outside=["that rust_decimal's own to_string/from_str round-trip every 96-bit mantissa and scale (a property of the dependency)", "MCP tool wrappers (async)", "dates other than the palette"]),
+                outside=["that rust_decimal's own to_string/from_str round-trip every 96-bit mantissa and scale (a property of the dependency)", "MCP transport and routing (the parse_transactions / convert_to_dsl handlers are executed on the single-line and list skeletons)", "dates other than the palette"]),
     "C15": dict(id="C15", families=fam_c15, panic_is_subject=True, env={"SYMX_MAX_LEAVES": "600"}, entry_points=["cgt_core::validation::validate", "cgt_core::calculator::calculate (all years and year filter)", "cgt_core::dsl::transactions_to_dsl", "cgt_formatter_plain::format", "serde_json::to_string(&TaxReport)"],
                 bounds=bounds_rel((
                     "validator: one transaction of each kind and all pairs (7 x 4), every numeric field an unconstrained real (any sign, zero); panic freedom: every B/S ledger with 1..3 lines on {0,1,30} and 1..2 trade lines plus one event line, every numeric field unconstrained in sign with magnitude <= 1e9; 'huge' family: 1..2 lines, magnitudes unbounded with the 2^96 overflow condition of the decimal type modelled",
@@ -707,10 +711,10 @@ SPECS.update({
                 outside=["arbitrary byte strings through the pest parser", "CLI exit status / stdout / --output / default-PDF overwrite (process and file-system effects)", "hangs", "MCP"]),
     "C17": dict(id="C17", families=fam_c17, entry_points=["serde Serialize for TaxReport / TaxYearSummary / Disposal / Match / Section104Holding (decimal_money)", "cgt_formatter_plain::format (format_disposal)", "cgt_format::{format_gbp,format_decimal_trimmed,format_price,format_date,format_tax_year,round_gbp}", "cgt_core::calculator::calculate"],
                 bounds=bounds_rel((
-                    "every B/S ledger of one security with 2..3 lines (<= 1 disposal day for 3 lines) on {0,30} from 2024-01-10 and on {0,1,30,31} from 2024-03-07 (two tax years), 2 trade lines plus one DIVIDEND / SPLIT / CAPRETURN line; all numeric fields symbolic, so half-penny midpoints and negative results are reachable; every monetary token of the JSON and of the plain text mapped back to its term",
+                    "every B/S ledger of one security with 2..3 lines (<= 1 disposal day for 3 lines) on {0,30} from 2024-01-10 and on {0,1,30,31} from 2024-03-07 (two tax years), 2 trade lines plus one DIVIDEND / SPLIT / CAPRETURN line; all numeric fields symbolic, so half-penny midpoints and negative results are reachable; every monetary token of the JSON and of the plain text mapped back to its term; the same ledgers with fractional concrete quantities (6 decimals); the MCP tools calculate_report / explain_matching on the <= 3-line ledgers fed as JSON array and as DSL text (DSL variant: fees and tax assumed non-zero)",
                     "as quick with 2..4 lines and <= 2 disposal days")),
                 assumptions=["figures in text are located by the line formats of cgt-formatter-plain; a figure whose separators or sign are misplaced fails to map back and is reported", "exempt amounts are the embedded table's constants"],
-                outside=["PDF (Decimal -> f64 -> Typst)", "MCP tool output", "digit grouping for magnitudes the solver does not choose (the grouping code runs on the literal)"]),
+                outside=["PDF (Decimal -> f64 -> Typst)", "MCP: stdio transport, request routing, concurrency (the calculate_report / explain_matching handlers themselves are executed)", "digit grouping for magnitudes the solver does not choose (the grouping code runs on the literal)"]),
 })
 
 
